@@ -58,6 +58,7 @@ class PathTable:
     def _T(self, env: Dict[str, sp.Expr], depth: int = 0) -> Translator:
         T = Translator(env=env, positive=self.positive)
         T._depth = depth
+        T.attr_of_bound = True
 
         def hook(call, TT):
             if self.user_hook is not None:
